@@ -84,3 +84,18 @@ def check(ctx):
         "if not reverse:\n        b.reverse()" in tub and "n <<= 8" in tub and "n += b.pop()" in tub
     ctx.check(ok, "T9-bytify", by, "bytify builds MSB first and reverses iff reverse; unbytify reverses iff not reverse and pops LSB-last",
               "the byte-order variants must be mirror images and bytify/unbytify mutual inverses")
+    # decoders and encoders work on their own copy: what the caller passed (a receive buffer, a packed field) is left as it was
+    ctx.rule("T4-args", "byting functions other than packifyInto never mutate a caller's argument in place")
+    from ..rules import param_mutations
+    m = ctx.repo.mod("aid.byting")
+    k = 0
+    for f in [x for x in m.tree.body if isinstance(x, ast.FunctionDef)]:
+        if f.name == "packifyInto":
+            continue        # writes into the caller's buffer by contract
+        k += 1
+        V = FuncView(ctx, f)
+        bad = param_mutations(V)
+        ctx.check(not bad, "T4-args", bad[0][0].ast if bad else f, "%s works on its own copy of its arguments%s" % (f.name, (": " + bad[0][2]) if bad else ""),
+                  "the argument may be the caller's live buffer (or the shared mutable default): e.g. reversing it in place makes a "
+                  "second decode of the same bytes return different fields")
+    ctx.floor("T4-args:functions", k, 8)
